@@ -91,6 +91,8 @@ func runC11(p *Program, r *Report) {
 	c11gate(p, r, "C11.gate")
 	c11key(p, r, "C11.key")
 	c11sub(p, r, "C11.sub")
+	cSingleValued(p, r, "C11.single", []string{"verifyClientRequest"}, []string{"Sec-WebSocket-Version"})
+	cAsciiTokens(p, r, "C11.ascii", []string{"verifyClientRequest", "headerTokens", "headerContainsTokenIgnoreCase", "selectSubprotocol"})
 	cTokens(p, r, "C11.tokens")
 }
 
@@ -654,6 +656,7 @@ func c13req(p *Program, r *Report, rule string) {
 
 func runC13(p *Program, r *Report) {
 	c13req(p, r, "C13.req")
+	cSingleValued(p, r, "C13.single", []string{"verifyServerResponse", "verifySubprotocol"}, []string{"Sec-WebSocket-Accept", "Sec-WebSocket-Protocol"})
 	if fn := p.Func("secWebSocketKey"); fn != nil {
 		p.forAllPaths(r, "C13.key", fn, "16 random bytes, base64", Opts{},
 			"secWebSocketKey reads exactly 16 bytes with io.ReadFull from the injected reader or crypto/rand.Reader and returns their StdEncoding base64; a read error yields no key", func(pa *Path) (bool, string) {
@@ -820,6 +823,7 @@ func c13verify(p *Program, r *Report, rule string) {
 
 func runC14(p *Program, r *Report) {
 	c14server(p, r, "C14.server")
+	cWindowBits(p, r, "C14.bits", []string{"acceptDeflate", "verifyServerExtensions"})
 	c14fallback(p, r, "C14.fallback")
 	c14render(p, r, "C14.render")
 	c14client(p, r, "C14.client")
